@@ -258,6 +258,7 @@ pub struct CaseStats {
 
 pub const STOP_REMOVED: u32 = 1;
 pub const NO_F3_EXCLUSION: u32 = 2;
+pub const EXCLUDE_F3: u32 = 32;
 pub const HOLD_F1: u32 = 4;
 pub const NO_F8_EXCLUSION: u32 = 8;
 pub const EXCLUDE_F8: u32 = 16;
@@ -609,10 +610,11 @@ impl World {
         }
     }
 
-    /// Known finding F3: a sole voter with an unpersisted tail must not campaign
-    /// (become_leader asserts last_index == persisted). Excluded by construction.
+    /// Former finding F3: a sole voter with an unpersisted tail campaigned and tripped
+    /// become_leader's assertion. Was excluded by construction while the finding was open.
     pub(crate) fn f3_trigger(&self, ni: usize) -> bool {
-        if self.options & NO_F3_EXCLUSION != 0 {
+        // F3 is repaired (see known_findings.json `fixed`): nothing is excluded any more unless asked for
+        if self.options & EXCLUDE_F3 == 0 {
             return false;
         }
         match self.nodes[ni].rn.as_ref() {
